@@ -116,7 +116,7 @@ func k8sGen(r *rand.Rand, i int, thorough bool) interface{} {
 	case k == 3:
 		c.Kind = "shards"
 		c.Port = []int{8080, 80, 0, 9090}[r.Intn(4)]
-		n := r.Intn(maxN)
+		n := r.Intn(maxN + 6) // beyond ten pods: ordinal order is not name order
 		for o := 0; o < n; o++ {
 			ip := fmt.Sprintf("10.0.%d.%d", r.Intn(3), o+1)
 			if r.Intn(4) == 0 {
